@@ -81,17 +81,19 @@ Section Desurvey.
   (* Drillhole.locations *)
   Definition locations (collar : V3) (s : list station) : list V3 := locations_of collar (legs (augment s)).
 
-  (* Drillhole.desurvey for one depth, on the augmented table t *)
-  Definition desurvey_on (collar : V3) (t : list station) (d : Q) : option V3 :=
+  (* Drillhole.desurvey for one depth, on the augmented table t, given the array self.locations returns (a cache:
+     see Model/HoleData.v [dhole]); the table and the deviations are recomputed from the current surveys at every call *)
+  Definition desurvey_with (locs : list V3) (t : list station) (d : Q) : option V3 :=
     let ts := depths_of t in
     let lg := legs t in
-    let locs := locations_of collar lg in
     let il := Nat.pred (count_lt ts d) in         (* np.maximum(np.searchsorted(ts, d, side="left") - 1, 0) *)
     let id := Nat.min il (length lg - 1) in       (* np.minimum(ind_loc, deviation.shape[0] - 1) *)
     match nth_error locs il, nth_error ts il, nth_error lg id with
     | Some p, Some t0, Some (_, v) => Some (vadd p (vscale (d - t0)%Q v))
     | _, _, _ => None
     end.
+  Definition desurvey_on (collar : V3) (t : list station) (d : Q) : option V3 :=
+    desurvey_with (locations_of collar (legs t)) t d.
   Definition desurvey (collar : V3) (s : list station) (d : Q) : option V3 := desurvey_on collar (augment s) d.
 
   (* the stated domain of the property: at least one row, depths non-decreasing and not negative *)
@@ -103,6 +105,7 @@ Arguments augment {ang} s.
 Arguments legs {ang} dir t.
 Arguments depths_of {ang} t.
 Arguments locations {ang} dir collar s.
+Arguments desurvey_with {ang} dir locs t d.
 Arguments desurvey_on {ang} dir collar t d.
 Arguments desurvey {ang} dir collar s d.
 Arguments survey_ok {ang} s.
